@@ -187,6 +187,12 @@ func (r *Report) Finish(verifDir string, seed int) int {
 	for k, v := range r.Extra {
 		cov[k] = v
 	}
+	if r.Assumptions == nil {
+		r.Assumptions = []string{}
+	}
+	if r.NotDecided == nil {
+		r.NotDecided = []string{}
+	}
 	ev := map[string]any{
 		"property_id": r.Prop,
 		"tier":        r.Tier,
